@@ -70,6 +70,11 @@ def run(ctx, depth):
             bad.append("revision data differs from the built-in controller's bytes: %s vs %s" % (o.get("advanced", "")[:120], o.get("builtin", "")[:120]))
         if not o.get("same_after_from_builtin", True):
             bad.append("a built-in set converted to the Advanced type records different revision data")
+        if o.get("upgrade_err"):
+            bad.append("helper.Upgrade failed on a valid built-in set: %s" % o["upgrade_err"])
+        elif not o.get("same_after_upgrade", True):
+            bad.append("the Advanced StatefulSet stored by helper.Upgrade records different revision data than the built-in set: %s vs %s" % (
+                o.get("after_upgrade", "")[:160], o.get("builtin", "")[:160]))
         if bad:
             ctx.violations.append({"family": "C18/bytes", "input": c, "observed": o, "clauses": bad, "signature": {"kind": "bytes"}})
     ctx.sample({"family": "bytes", "input": cases[0], "observed": outs[0]})
